@@ -384,6 +384,8 @@ class Arbiter(object):
                 # if nothing but the number of processes is
                 # changed, just changes this
                 yield w.set_numprocesses(int(new_watcher_cfg['numprocesses']))
+                # keep the snapshot in step, or a later revert goes unnoticed
+                w._cfg['numprocesses'] = new_watcher_cfg['numprocesses']
                 changed = False
             else:
                 changed = len(diff) > 0
